@@ -23,7 +23,10 @@ def gen_uod_case(rng):
             ops.append(["tick", 1, True, rng.random() >= 0.02, reqs, rng.random() < 0.02])
     ops.append(["tick", 1, True, True, [], False])
     ops.append(["tick", 1, True, True, [], False])
-    return dict(cfg=base["cfg"], ops=ops)
+    # one command may belong to several overlap groups (the code walks every declared group)
+    cfg = dict(base["cfg"], overlaps=rng.choice([[[1, 2]], [[1, 2]], [[0, 1], [0, 2]], [[1, 2], [0, 2]], [[0, 2], [1, 2]], [[0, 1, 2]],
+                                                 [[0, 1], [1, 2]]]))
+    return dict(cfg=cfg, ops=ops)
 
 
 class C11(EngineProp):
@@ -52,7 +55,7 @@ class C11(EngineProp):
                   "mirrored in the model. No axioms.")
     TECHNIQUE = "Coq proof (life-cycle invariant preserved by every guarded primitive of the engine step, lifted to all executions) + operation-by-operation correspondence with the real Engine + strict Coq monitor on the real init/exec/finalize calls"
     RULE = ("UOD-heavy operation sequences of 8-45 operations: up to three method-issued UOD requests per tick over three "
-            "commands (two overlapping), durations 0-5, scripted failures, output writes; user-issued commands; Stop, "
+            "commands (overlap groups drawn from {B,C}, {A,B}+{A,C}, {B,C}+{A,C}, {A,C}+{B,C}, {A,B,C}, {A,B}+{B,C}), durations 0-5, scripted failures, output writes; user-issued commands; Stop, "
             "Restart, Pause, Hold at any tick; write faults 2%, interpreter errors 2%; non-trivial = at least three "
             "instances initialised and a run end; distinct by canonical JSON")
 
